@@ -1247,6 +1247,453 @@ theorem run_inv {A : Allocator} (L : AllocLaws A) (cfg : Cfg) (hneed : ∀ b, 0 
   | nil => intro c h; exact h
   | cons op r ih => intro c h; exact ih _ (step_inv L cfg hneed c op h)
 
+/-! #### the caller releases everything -/
+
+theorem releaseOp_sess {A : Allocator} (c : Conn A) (k : Nat) : (releaseOp c k).sess = c.sess := by
+  unfold releaseOp
+  split
+  · rfl
+  · split <;> rfl
+
+theorem releaseOp_get {A : Allocator} (c : Conn A) (k j : Nat) (hb' : HeldB)
+    (h : (releaseOp c k).held[j]? = some hb') : hb'.released = true ∨ c.held[j]? = some hb' := by
+  unfold releaseOp at h
+  cases hk : c.held[k]? with
+  | none => simp only [hk] at h; exact .inr h
+  | some hb =>
+    simp only [hk, Gen.C29.releaseIdempotent, Bool.and_true] at h
+    cases hr : hb.released with
+    | true => simp only [hr, if_true] at h; exact .inr h
+    | false =>
+      simp only [hr, Bool.false_eq_true, if_false, List.getElem?_set] at h
+      by_cases hkj : k = j
+      · simp only [hkj, if_true] at h
+        split at h
+        · simp only [Option.some.injEq] at h
+          subst h; exact .inl rfl
+        · simp at h
+      · simp only [hkj, if_false] at h
+        exact .inr h
+
+theorem releaseOp_at {A : Allocator} (c : Conn A) (k : Nat) (hb' : HeldB) (h : (releaseOp c k).held[k]? = some hb') :
+    hb'.released = true := by
+  unfold releaseOp at h
+  cases hk : c.held[k]? with
+  | none => simp only [hk] at h; simp at h
+  | some hb =>
+    simp only [hk, Gen.C29.releaseIdempotent, Bool.and_true] at h
+    cases hr : hb.released with
+    | true =>
+      simp only [hr, if_true] at h
+      rw [hk] at h
+      simp only [Option.some.injEq] at h
+      subst h; exact hr
+    | false =>
+      simp only [hr, Bool.false_eq_true, if_false, List.getElem?_set, if_true] at h
+      split at h
+      · simp only [Option.some.injEq] at h
+        subst h; rfl
+      · simp at h
+
+theorem releaseOp_len {A : Allocator} (c : Conn A) (k : Nat) : (releaseOp c k).held.length = c.held.length := by
+  unfold releaseOp
+  split
+  · rfl
+  · split <;> simp
+
+theorem fold_release {A : Allocator} (L : AllocLaws A) (n : Nat) :
+    ∀ c : Conn A, Inv L c →
+      Inv L ((List.range n).foldl releaseOp c) ∧ ((List.range n).foldl releaseOp c).sess = c.sess ∧
+      ((List.range n).foldl releaseOp c).held.length = c.held.length ∧
+      ∀ j hb, ((List.range n).foldl releaseOp c).held[j]? = some hb → j < n → hb.released = true := by
+  induction n with
+  | zero => intro c hi; exact ⟨hi, rfl, rfl, fun _ _ _ h => absurd h (Nat.not_lt_zero _)⟩
+  | succ n ih =>
+    intro c hi
+    obtain ⟨h1, h2, h3, h4⟩ := ih c hi
+    simp only [List.range_succ, List.foldl_append, List.foldl_cons, List.foldl_nil]
+    refine ⟨releaseOp_inv L _ n h1, by rw [releaseOp_sess, h2], by rw [releaseOp_len, h3], ?_⟩
+    intro j hb hj hlt
+    by_cases hjn : j = n
+    · subst hjn; exact releaseOp_at _ _ hb hj
+    · rcases releaseOp_get _ n j hb hj with h | h
+      · exact h
+      · exact h4 j hb h (by omega)
+
+theorem clientRefs_all_released (held : List HeldB) (h : ∀ (j : Nat) (hb : HeldB), held[j]? = some hb → hb.released = true) :
+    clientRefs held = [] := by
+  simp only [clientRefs, List.filterMap_eq_nil_iff]
+  intro x hx
+  obtain ⟨j, hj⟩ := List.mem_iff_getElem?.mp hx
+  simp [h j x hj]
+
+/-! ### D. the first-fit table satisfies the contract -/
+
+/-- offset-sorted, non-overlapping, non-empty entries starting at or after `prev` -/
+def TableOk : Nat → List Region → Prop
+  | _, [] => True
+  | prev, (o, l) :: r => prev ≤ o ∧ 0 < l ∧ TableOk (o + l) r
+
+theorem tableOk_mono (t : List Region) : ∀ p p', p ≤ p' → TableOk p' t → TableOk p t := by
+  cases t with
+  | nil => intro _ _ _ _; trivial
+  | cons e r =>
+    intro p p' hp h
+    obtain ⟨o, l⟩ := e
+    exact ⟨Nat.le_trans hp h.1, h.2.1, h.2.2⟩
+
+theorem tableOk_lb (t : List Region) : ∀ p, TableOk p t → ∀ e ∈ t, p ≤ e.1 := by
+  induction t with
+  | nil => intro _ _ e he; simp at he
+  | cons x r ih =>
+    intro p h e he
+    obtain ⟨o, l⟩ := x
+    simp only [List.mem_cons] at he
+    rcases he with rfl | he
+    · exact h.1
+    · have := ih (o + l) h.2.2 e he
+      have := h.1
+      omega
+
+theorem ffInsert_spec (size total : Nat) (hs : 0 < size) (t : List Region) :
+    ∀ prev x t', TableOk prev t → ffInsert size total prev t = some (x, t') →
+      TableOk prev t' ∧ t'.Perm ((x, size) :: t) ∧ (∀ r ∈ t, Disjoint (x, size) r) ∧ prev ≤ x := by
+  induction t with
+  | nil =>
+    intro prev x t' _ h
+    simp only [ffInsert] at h
+    split at h
+    · simp only [Option.some.injEq, Prod.mk.injEq] at h
+      obtain ⟨rfl, rfl⟩ := h
+      exact ⟨⟨Nat.le_refl _, hs, trivial⟩, List.Perm.refl _, by simp, Nat.le_refl _⟩
+    · simp at h
+  | cons e r ih =>
+    intro prev x t' hok h
+    obtain ⟨o, l⟩ := e
+    simp only [ffInsert] at h
+    split at h
+    · rename_i hc
+      simp only [Option.some.injEq, Prod.mk.injEq] at h
+      obtain ⟨rfl, rfl⟩ := h
+      refine ⟨⟨Nat.le_refl _, hs, ⟨by omega, hok.2.1, hok.2.2⟩⟩, List.Perm.refl _, ?_, Nat.le_refl _⟩
+      intro q hq
+      have := tableOk_lb _ prev hok q hq
+      have hlb : o ≤ q.1 := by
+        simp only [List.mem_cons] at hq
+        rcases hq with rfl | hq
+        · exact Nat.le_refl _
+        · have := tableOk_lb r (o + l) hok.2.2 q hq
+          omega
+      left
+      simp only
+      omega
+    · cases hrec : ffInsert size total (o + l) r with
+      | none => simp [hrec] at h
+      | some p =>
+        obtain ⟨y, r'⟩ := p
+        simp only [hrec, Option.some.injEq, Prod.mk.injEq] at h
+        obtain ⟨rfl, rfl⟩ := h
+        obtain ⟨h1, h2, h3, h4⟩ := ih (o + l) y r' hok.2.2 hrec
+        refine ⟨⟨hok.1, hok.2.1, h1⟩, ?_, ?_, by have := hok.1; omega⟩
+        · exact (List.Perm.cons _ h2).trans (List.Perm.swap _ _ _)
+        · intro q hq
+          simp only [List.mem_cons] at hq
+          rcases hq with rfl | hq
+          · right; simp only; omega
+          · exact h3 q hq
+
+theorem ffFree_spec (off n : Nat) (t : List Region) :
+    ∀ prev, TableOk prev t → (off, n) ∈ t → TableOk prev (ffFree off t) ∧ t.Perm ((off, n) :: ffFree off t) := by
+  induction t with
+  | nil => intro _ _ h; simp at h
+  | cons e r ih =>
+    intro prev hok hmem
+    obtain ⟨o, l⟩ := e
+    simp only [ffFree]
+    by_cases ho : o = off
+    · subst ho
+      simp only [if_true]
+      have heq : (o, n) = (o, l) := by
+        simp only [List.mem_cons] at hmem
+        rcases hmem with h | h
+        · exact h
+        · have h1 : o + l ≤ (o, n).1 := tableOk_lb r (o + l) hok.2.2 _ h
+          have h2 : 0 < l := hok.2.1
+          have h3 : o + l ≤ o := h1
+          omega
+      refine ⟨tableOk_mono r prev (o + l) (by have := hok.1; omega) hok.2.2, ?_⟩
+      rw [heq]
+    · simp only [ho, if_false]
+      have hmem' : (off, n) ∈ r := by
+        simp only [List.mem_cons, Prod.mk.injEq] at hmem
+        rcases hmem with h | h
+        · exact absurd h.1.symm ho
+        · exact h
+      obtain ⟨h1, h2⟩ := ih (o + l) hok.2.2 hmem'
+      exact ⟨⟨hok.1, hok.2.1, h1⟩, (List.Perm.cons _ h2).trans (List.Perm.swap _ _ _)⟩
+
+/-! #### a held batch's handle carries that batch -/
+
+def HeldOk {A : Allocator} (c : Conn A) : Prop := ∀ hb ∈ c.held, ∀ h, hb.h = some h → h.b = hb.b
+
+theorem readW_hnd_b {A : Allocator} (w : World A) (xs : List WItem) :
+    ∀ evs b h rest, readW w xs = (evs, .gotData b (some h) rest) → h.b = b := by
+  induction xs with
+  | nil => intro evs b h rest e; simp [readW] at e
+  | cons x r ih =>
+    intro evs b h rest e
+    cases x with
+    | inl i =>
+      cases i with
+      | log l =>
+        simp only [readW, recv, Prod.mk.injEq] at e
+        exact ih _ b h rest (Prod.ext rfl e.2)
+      | data b' => simp [readW, recv] at e
+      | err e' => simp [readW, recv] at e
+      | token p =>
+        simp only [readW, recv] at e
+        exact ih _ b h rest e
+    | ptr o n =>
+      simp only [readW, recv] at e
+      cases hr : resolve w o n with
+      | none => simp [hr] at e
+      | some p =>
+        obtain ⟨wid, b'⟩ := p
+        simp only [hr, Prod.mk.injEq, REnd.gotData.injEq, Option.some.injEq] at e
+        obtain ⟨_, rfl, rfl, _⟩ := e
+        rfl
+
+theorem finishRead_heldOk {A : Allocator} (c : Conn A) (w : World A) (s1 : Sess) (isTick : Bool) (seen : List Batch)
+    (rd : List Ev × REnd) (hc : HeldOk c) (hrd : ∀ evs b h rest, rd = (evs, .gotData b (some h) rest) → h.b = b) :
+    HeldOk (finishRead c w s1 isTick seen rd).2 := by
+  obtain ⟨evs, e⟩ := rd
+  cases e with
+  | gotData b h rest =>
+    simp only [finishRead, HeldOk, List.mem_append, List.mem_singleton]
+    intro hb hm h' hh
+    rcases hm with hm | rfl
+    · exact hc hb hm h' hh
+    · simp only at hh
+      subst hh
+      exact hrd evs b h' rest rfl
+  | raised => simpa [finishRead, HeldOk] using hc
+  | eos => cases isTick <;> simpa [finishRead, HeldOk] using hc
+
+theorem step_heldOk {A : Allocator} (cfg : Cfg) (c : Conn A) (op : Op) (hc : HeldOk c) : HeldOk (step cfg c op).2 := by
+  have hsend : ∀ s inp coerce, HeldOk (sendOp cfg c s inp coerce).2 := by
+    intro s inp coerce
+    unfold sendOp
+    split
+    · exact hc
+    · split
+      · simpa [HeldOk] using hc
+      · split
+        · exact finishRead_heldOk c _ _ _ _ _ hc (readW_hnd_b _ _)
+        · exact finishRead_heldOk c _ _ _ _ _ hc (readW_hnd_b _ _)
+  have hclose : ∀ s, HeldOk (closeOp c s).2 := by
+    intro s
+    unfold closeOp
+    split
+    · exact hc
+    · simpa [HeldOk] using hc
+  cases op with
+  | call logs out req =>
+    simp only [step]
+    split
+    · exact hc
+    · unfold callOp
+      cases out <;> simpa [HeldOk] using hc
+  | openS exch early init il steps =>
+    simp only [step]
+    split
+    · exact hc
+    · simpa [HeldOk] using hc
+  | tick =>
+    simp only [step]
+    cases c.sess with
+    | none => exact hc
+    | some s => exact hsend _ _ _
+  | send inp coerce =>
+    simp only [step]
+    cases c.sess with
+    | none => exact hc
+    | some s => exact hsend _ _ _
+  | close =>
+    simp only [step]
+    cases c.sess with
+    | none => exact hc
+    | some s => exact hclose _
+  | cancel =>
+    simp only [step]
+    cases c.sess with
+    | none => exact hc
+    | some s => exact hclose _
+  | release k =>
+    simp only [step, releaseOp]
+    cases hk : c.held[k]? with
+    | none => exact hc
+    | some hb =>
+      simp only []
+      split
+      · exact hc
+      · simp only [HeldOk]
+        intro hb' hm h hh
+        rcases List.mem_or_eq_of_mem_set hm with hm | rfl
+        · exact hc hb' hm h hh
+        · exact hc hb (List.mem_of_getElem? hk) h hh
+
+theorem run_heldOk {A : Allocator} (cfg : Cfg) (ops : List Op) : ∀ c : Conn A, HeldOk c → HeldOk (run cfg c ops).2 := by
+  induction ops with
+  | nil => intro c h; exact h
+  | cons op r ih => intro c h; exact ih _ (step_heldOk cfg c op h)
+
+theorem resolve_of_intact {A : Allocator} (w : World A) (h : Hnd) (hi : Intact w.mem h) (hl : 0 < h.len) :
+    resolve w h.off h.len = some (h.wid, h.b) := by
+  have h0 := hi 0 hl
+  simp only [Nat.add_zero] at h0
+  have h1 : Mem.intact w.mem h.off h.len h.wid h.b = true := by
+    simp only [Mem.intact, List.all_eq_true, List.mem_range]
+    intro i hlt
+    simp [hi i hlt]
+  simp [resolve, h0, h1]
+
 end Aux
+
+open Aux
+
+/-! ## Property theorems (obligations) -/
+
+/-- the code shapes the model relies on without branching on them (extracted into `Gen.C29`): guards of
+`maybe_write_to_shm` in source order with a strict `<`, requested sizes, the senders route every batch, the readers
+resolve and attach the release function, the release closure frees its own offset -/
+theorem C29_shapes :
+    Gen.C29.guardZeroRows = true ∧ Gen.C29.guardStrictLtMin = true ∧ Gen.C29.guardAllocNone = true ∧
+    Gen.C29.guardOrderOk = true ∧ Gen.C29.nondictEstimate = true ∧ Gen.C29.dictExact = true ∧
+    Gen.C29.noneOnRefusal = true ∧ Gen.C29.releaseFreesOffset = true ∧ Gen.C29.requestResolves = true ∧
+    Gen.C29.serverResolvesInput = true ∧ Gen.C29.flushRoutes = true ∧ Gen.C29.resultRoutes = true ∧
+    Gen.C29.inputRoutes = true ∧ Gen.C29.readerAttachesRelease = true ∧ 0 < Gen.C29.streamOverhead := by
+  decide
+
+/-- **transparency**: for every allocator (even one violating its contract), threshold, size function and client history,
+the shm machine observes — operation by operation: delivered events and what the server's user code was handed — exactly
+what inline delivery observes.  (A batch too large for the segment is the `alloc = none` branch of `put`: inline.) -/
+theorem C29_transparent (A A' : Allocator) (cfg : Cfg) (hneed : ∀ b, 0 < cfg.need b) (ops : List Op) :
+    (run cfg (Conn.init A) ops).1 = Abs.run none ops ∧
+    (run cfg (Conn.init A) ops).1 = (run { cfg with shm := false } (Conn.init A') ops).1 := by
+  have h1 := run_sim cfg hneed ops (Conn.init A) none (by simp [R, Conn.init])
+  have h2 := run_sim { cfg with shm := false } hneed ops (Conn.init A') none (by simp [R, Conn.init])
+  exact ⟨h1, h1.trans h2.symm⟩
+
+/-- unary call over shm (result and, for a pointer-request client, the request routed through the segment):
+`Engine.Pipe` / `Engine.Sem` observation; the method is handed the request the client sent -/
+theorem C29_unary_refines {A : Allocator} (cfg : Cfg) (hneed : ∀ b, 0 < cfg.need b) (c : Conn A)
+    (hq : Quiescent c) (logs : List Log) (out : Except Exn Nat) (req : Option Batch) :
+    (step cfg c (.call logs out req)).1.evs = Pipe.unaryObs logs out ∧
+    (step cfg c (.call logs out req)).1.evs = Sem.unary logs out ∧
+    (step cfg c (.call logs out req)).1.srvIn = req.toList := by
+  have := (callOp_spec cfg hneed c logs out req).1
+  simp only [Quiescent] at hq
+  simp [step, hq, this, (unary_refines logs out).1]
+
+/-- producer stream over shm, iterated to its end: exactly `Engine.Pipe.iterate`, hence `Engine.Sem.producer` -/
+theorem C29_producer_refines {A : Allocator} (cfg : Cfg) (hneed : ∀ b, 0 < cfg.need b) (c : Conn A)
+    (hq : Quiescent c) (early : Bool) (il : List Log) (steps : List Step) :
+    (iterAll cfg (steps.length + 2) (step cfg c (.openS false early none il steps)).2).1 = Pipe.iterate (logItems il) steps ∧
+    (iterAll cfg (steps.length + 2) (step cfg c (.openS false early none il steps)).2).1 =
+      Sem.lg il ++ Sem.producer false steps := by
+  have h := iterAll_sim cfg hneed (steps.length + 2) _ _ (open_R cfg c hq false early il steps)
+  rw [abs_iterate steps il _ (Nat.le_refl _)] at h
+  exact ⟨h, h.trans (pipe_producer_refines il steps)⟩
+
+/-- exchange session over shm (inputs routed by the client, outputs by the server), one input per step, then close:
+exactly `Engine.Pipe.exchangeAll`, hence `Engine.Sem.exchange` -/
+theorem C29_exchange_refines {A : Allocator} (cfg : Cfg) (hneed : ∀ b, 0 < cfg.need b) (c : Conn A)
+    (hq : Quiescent c) (early : Bool) (il : List Log) (steps : List Step) (inputs : List Batch)
+    (hl : inputs.length = steps.length) :
+    (exchAll cfg inputs (step cfg c (.openS true early none il steps)).2).1 = Pipe.exchangeAll (logItems il) steps ∧
+    (exchAll cfg inputs (step cfg c (.openS true early none il steps)).2).1 = Sem.lg il ++ Sem.exchange false steps := by
+  have h := exchAll_sim cfg hneed inputs _ _ (open_R cfg c hq true early il steps)
+  rw [abs_exchange steps il inputs hl] at h
+  exact ⟨h, h.trans (pipe_exchange_refines il steps)⟩
+
+/-- **the invariant**, for ALL histories and every allocator satisfying the contract: the allocator's own invariant holds,
+the live regions are exactly the regions referenced by unreleased batches (client-held ones and the server's current
+input), and every referenced region still holds what was written to it -/
+theorem C29_invariant {A : Allocator} (L : AllocLaws A) (cfg : Cfg) (hneed : ∀ b, 0 < cfg.need b) (ops : List Op) :
+    L.Ok (run cfg (Conn.init A) ops).2.w.a ∧ Accounted (run cfg (Conn.init A) ops).2 ∧
+    ∀ h ∈ refs (run cfg (Conn.init A) ops).2, Intact (run cfg (Conn.init A) ops).2.w.mem h := by
+  have hi := run_inv L cfg hneed ops _ (init_inv L)
+  exact ⟨hi.winv.ok, hi.winv.acc, hi.winv.intact⟩
+
+/-- **accounting**: after every completed call (no stream open) the live regions are exactly those referenced by batches
+the client still holds unreleased — nothing leaked, nothing freed early -/
+theorem C29_accounting {A : Allocator} (L : AllocLaws A) (cfg : Cfg) (hneed : ∀ b, 0 < cfg.need b) (ops : List Op)
+    (hq : Quiescent (run cfg (Conn.init A) ops).2) :
+    (A.live (run cfg (Conn.init A) ops).2.w.a).Perm ((clientRefs (run cfg (Conn.init A) ops).2.held).map Hnd.region) := by
+  have hi := run_inv L cfg hneed ops _ (init_inv L)
+  have := hi.winv.acc
+  simpa [refs, serverRefs_closed L _ hi hq] using this
+
+/-- … and once the client has released them, no region is live: a session of any length leaks nothing -/
+theorem C29_released_all {A : Allocator} (L : AllocLaws A) (cfg : Cfg) (hneed : ∀ b, 0 < cfg.need b) (ops : List Op)
+    (hq : Quiescent (run cfg (Conn.init A) ops).2) :
+    A.live (releaseAll (run cfg (Conn.init A) ops).2).w.a = [] := by
+  have hi := run_inv L cfg hneed ops _ (init_inv L)
+  obtain ⟨h1, h2, _, h4⟩ := fold_release L (run cfg (Conn.init A) ops).2.held.length _ hi
+  have hq' : sessionOpen (releaseAll (run cfg (Conn.init A) ops).2).sess = false := by
+    simp only [releaseAll, h2]; exact hq
+  have hcr : clientRefs (releaseAll (run cfg (Conn.init A) ops).2).held = [] := by
+    apply clientRefs_all_released
+    intro j hb hj
+    refine h4 j hb hj ?_
+    have := (List.getElem?_eq_some_iff.mp hj).1
+    simp only [releaseAll] at this
+    omega
+  have := h1.winv.acc
+  simp only [releaseAll] at hcr hq'
+  simp only [refs, hcr, serverRefs_closed L _ h1 hq', List.append_nil, List.map_nil] at this
+  simpa [releaseAll] using this.eq_nil
+
+/-- **no reuse**: in every reachable state, whatever is allocated next is disjoint from every region an unreleased
+batch references (the client's held batches and the server's current input) -/
+theorem C29_no_reuse {A : Allocator} (L : AllocLaws A) (cfg : Cfg) (hneed : ∀ b, 0 < cfg.need b) (ops : List Op)
+    (n o : Nat) (s' : A.σ) (hn : 0 < n) (ha : A.alloc (run cfg (Conn.init A) ops).2.w.a n = some (o, s')) :
+    ∀ h ∈ refs (run cfg (Conn.init A) ops).2, Disjoint (o, n) h.region := by
+  have hi := run_inv L cfg hneed ops _ (init_inv L)
+  intro h hh
+  exact (L.alloc_spec _ n o s' hi.winv.ok hn ha).2.2 _ (hi.winv.acc.mem_iff.mpr (List.mem_map_of_mem hh))
+
+/-- … hence every batch the client holds unreleased still reads back (zero-copy) as the batch it was delivered as,
+no matter what was transferred since -/
+theorem C29_held_intact {A : Allocator} (L : AllocLaws A) (cfg : Cfg) (hneed : ∀ b, 0 < cfg.need b) (ops : List Op)
+    (hb : HeldB) (hm : hb ∈ (run cfg (Conn.init A) ops).2.held) (hr : hb.released = false) (h : Hnd) (hh : hb.h = some h)
+    (hl : 0 < h.len) :
+    resolve (run cfg (Conn.init A) ops).2.w h.off h.len = some (h.wid, hb.b) := by
+  have hi := run_inv L cfg hneed ops _ (init_inv L)
+  have hk := run_heldOk cfg ops (Conn.init A) (by simp [HeldOk, Conn.init])
+  have hmem : h ∈ refs (run cfg (Conn.init A) ops).2 := by
+    simp only [refs, clientRefs, List.mem_append, List.mem_filterMap]
+    exact .inl ⟨hb, hm, by simp [hr, hh]⟩
+  rw [← hk hb hm h hh]
+  exact resolve_of_intact _ h (hi.winv.intact h hmem) hl
+
+/-- the first-fit table of `vgi_rpc/shm.py` (`firstFit`, the allocator the correspondence run uses) satisfies the
+contract: the theorems above are not vacuous, and they hold of the modelled allocator -/
+theorem firstFit_laws (total : Nat) : Nonempty (AllocLaws (firstFit total)) := by
+  refine ⟨{ Ok := fun t => TableOk Gen.C29.headerSize t, init_ok := trivial, init_live := rfl,
+            alloc_spec := ?_, free_spec := ?_ }⟩
+  · intro s n o s' hok hn ha
+    simp only [firstFit] at ha
+    split at ha
+    · omega
+    · split at ha
+      · simp at ha
+      · obtain ⟨h1, h2, h3, _⟩ := ffInsert_spec n total hn s _ o s' hok ha
+        exact ⟨h1, h2, h3⟩
+  · intro s o n hok hm
+    exact ffFree_spec o n s _ hok hm
+
+example : ∃ cfg : Cfg, ∀ b, 0 < cfg.need b := ⟨⟨true, 0, fun _ => 8, fun _ => 4104⟩, fun _ => by show 0 < 4104; decide⟩
+
 
 end VgiVerif.C29
